@@ -99,6 +99,15 @@ def apply_faults(tokens, faults):
                         "BEGIN_" + toks[j][0]
                     toks[j] = (new, "word", None)
                     break
+        elif kind == "wrong-end":
+            # the first end keyword at or after i becomes the one of the other block kind
+            for j in list(range(i, len(toks))) + list(range(0, i)):
+                fold = toks[j][0].casefold()
+                if toks[j][1] == "word" and fold in ("end_group", "end_object"):
+                    other = "END_OBJECT" if fold == "end_group" else "END_GROUP"
+                    toks[j] = (other if toks[j][0].isupper() else other.title(), "word",
+                               None)
+                    break
         elif kind == "badword":
             # the first bare word at or after i gets a comment delimiter glued to its
             # end ('foo*/'): no dialect lets an unquoted lexeme contain one
@@ -163,6 +172,7 @@ def fault_strategy():
         st.tuples(st.just("unclose-quote"), idx),
         st.tuples(st.just("badword"), idx),
         st.tuples(st.just("begin-form"), idx),
+        st.tuples(st.just("wrong-end"), idx),
     )
     return st.lists(one, min_size=1, max_size=3)
 
@@ -348,12 +358,13 @@ def single_faults(acc, d):
                        ("cut", i, 1), ("cut", i, 2), ("badchar", i, 0),
                        ("badchar", i, 1), ("badunits", i), ("unclose", i),
                        ("unclose-quote", i), ("badword", i), ("begin-form", i),
-                       ("nul", i)]
+                       ("nul", i), ("wrong-end", i)]
             faults += [("replace", i, k) for k in range(len(PUNCT) + 4)]
         for f in faults:
             toks = apply_faults(base, [f])
             structural = f[0] in ("replace", "swap", "delete", "dup", "begin-form")
-            for classes in [None] + (list(CLASS_CFGS)[:2] if structural else []):
+            for classes in [None] + (list(CLASS_CFGS) if f[0] == "wrong-end" else
+                                     list(CLASS_CFGS)[:2] if structural else []):
                 v, sig, detail = judge(d, toks, classes)
                 acc.event(f"single:{v}" + (":classes" if classes else ""))
                 if v == "ambiguous":
